@@ -1018,6 +1018,61 @@ fn encode_buffer(
     Ok(StunPacket::new(buffer, size))
 }
 
+/// Read-only snapshot of the client state, used by external runtime monitors.
+#[cfg(feature = "verif-hooks")]
+#[derive(Debug, Clone, PartialEq, Eq)]
+pub struct VerifSnapshot {
+    /// Outstanding transactions sorted by id: (id, an RTT sample is still
+    /// pending, debug rendering of its retransmission state)
+    pub outstanding: Vec<(TransactionId, bool, String)>,
+    /// Pending timeout entries sorted by expiry: (id, armed at, duration)
+    pub timeouts: Vec<(TransactionId, Instant, Duration)>,
+    /// RTT estimator (rto, srtt, rttvar); `None` on reliable transports
+    pub rtt: Option<(Duration, Duration, Duration)>,
+    /// Instant of the last request, `None` on reliable transports
+    pub last_request: Option<Instant>,
+    /// Debug rendering of the credential mechanism state (without markers)
+    pub cred_state: String,
+    /// Transactions marked to fail with protection violated on time-out
+    pub violated: Vec<TransactionId>,
+    /// Maximum number of outstanding transactions
+    pub max_transactions: usize,
+}
+
+#[cfg(feature = "verif-hooks")]
+impl StunClient {
+    /// Returns a read-only snapshot of the client state.
+    pub fn verif_snapshot(&self) -> VerifSnapshot {
+        let mut outstanding: Vec<(TransactionId, bool, String)> = self
+            .transactions
+            .iter()
+            .map(|(id, t)| (*id, t.instant.is_some(), format!("{:?}", t.rtos)))
+            .collect();
+        outstanding.sort();
+        let (rtt, last_request) = match &self.rtt {
+            StunRttCalcuator::Reliable(_) => (None, None),
+            StunRttCalcuator::Unreliable(handler) => {
+                (Some(handler.rtt.verif_values()), handler.last_request)
+            }
+        };
+        let (cred_state, mut violated) = match &self.mechanism {
+            None => (String::from("none"), Vec::new()),
+            Some(CredentialMechanismClient::ShortTerm(m)) => m.verif_state(),
+            Some(CredentialMechanismClient::LongTerm(m)) => m.verif_state(),
+        };
+        violated.sort();
+        VerifSnapshot {
+            outstanding,
+            timeouts: self.timeouts.verif_entries(),
+            rtt,
+            last_request,
+            cred_state,
+            violated,
+            max_transactions: self.max_transactions,
+        }
+    }
+}
+
 #[cfg(test)]
 mod stun_client_tests {
     use super::*;
